@@ -812,8 +812,17 @@ def corruptions_compose(rng):
     def c_basis():
         A, B0 = two(2)
         dB = rd(rng, d=2, n_dt=1, basis=('ggm',))
-        dA = rd(rng, d=2, n_dt=1, basis=('custom', gens.rotated_basis(rng, 2, True), True,
-                                                     'Custom'))
+        k = int(rng.integers(0, 4))
+        if k == 0:
+            dA = rd(rng, d=2, n_dt=1, basis=('custom', gens.rotated_basis(rng, 2, True), True, 'Custom'))
+        else:
+            # bases with the same (inherited) label and shape that differ as arrays: elements
+            # exchanged, a subset against another subset, a sign flipped
+            dB = rd(rng, d=2, n_dt=1, basis=('pauli',))
+            how = ['permute', 'swap_last', 'swap2'][k - 1]
+            dA = rd(rng, d=2, n_dt=1, basis=('derived', ('pauli',), how, int(rng.integers(0, 2**31))))
+            if np.array_equal(np.array(gens.make_basis(dA['basis'], 2)), np.array(ff.Basis.pauli(1))):
+                dA['basis'] = ('derived', ('pauli',), 'swap_last', 0)
         return (lambda: ff.concatenate([gens.build(dA), gens.build(dB)])), {'ValueError'}
 
     def c_two_ids():
